@@ -36,8 +36,11 @@ def main():
                 t0 = time.time()
                 c = sh("cd %s && ASYNQ_VERIF_REPO=%s ./check %s --no-evidence %s" % (VERIF_DIR, REPO, p, os.environ.get("SWEEP_ARGS", "")))
                 line = [l for l in c.stdout.splitlines() if l.startswith("violation:")]
+                hitl = [l for l in c.stdout.splitlines() if "workers found a violation" in l]
+                if line and hitl:
+                    line[0] = line[0][:200] + " " + hitl[0]
                 rows.append((os.path.basename(os.path.dirname(d)) + "/" + os.path.basename(d) if "/out/" in d else os.path.basename(d), p,
-                             "exit=%d %.0fs %s" % (c.returncode, time.time() - t0, line[0][:230] if line else c.stdout.strip().splitlines()[-1][:200])))
+                             "exit=%d %.0fs %s" % (c.returncode, time.time() - t0, line[0][:260] if line else c.stdout.strip().splitlines()[-1][:200])))
                 print("%-40s %-4s %s" % rows[-1], flush=True)
         finally:
             sh("git -C %s checkout -- ." % REPO)
